@@ -88,22 +88,40 @@ def hex_table(repo):
     return vals
 
 
+def match_brace(src, i):
+    """index just past the `}` matching the `{` at src[i]; string literals, char / byte literals are skipped"""
+    depth = 0
+    j = i
+    n = len(src)
+    while j < n:
+        c = src[j]
+        if c == '"':
+            j += 1
+            while j < n and src[j] != '"':
+                j += 2 if src[j] == '\\' else 1
+        elif c == "'":
+            m = re.match(r"'(?:\\(?:x[0-9A-Fa-f]{2}|u\{[0-9A-Fa-f]+\}|.)|[^'\\])'", src[j:j + 12])
+            if m:
+                j += m.end() - 1
+        elif c == '{':
+            depth += 1
+        elif c == '}':
+            depth -= 1
+            if depth == 0:
+                return j + 1
+        j += 1
+    return -1
+
+
 def fn_body(src, name):
     m = re.search(r'fn\s+' + re.escape(name) + r'\b', src)
     if not m:
         raise TranslateError('function %s not found' % name)
     i = src.index('{', m.end())
-    depth = 0
-    j = i
-    while j < len(src):
-        if src[j] == '{':
-            depth += 1
-        elif src[j] == '}':
-            depth -= 1
-            if depth == 0:
-                return src[i:j + 1]
-        j += 1
-    raise TranslateError('unbalanced braces in %s' % name)
+    j = match_brace(src, i)
+    if j < 0:
+        raise TranslateError('unbalanced braces in %s' % name)
+    return src[i:j]
 
 
 def fn_text(src, name):
@@ -240,15 +258,10 @@ def block_after(src, header_re):
     if not m:
         raise TranslateError('block %s not found' % header_re)
     i = src.index('{', m.end() - 1)
-    depth = 0
-    for j in range(i, len(src)):
-        if src[j] == '{':
-            depth += 1
-        elif src[j] == '}':
-            depth -= 1
-            if depth == 0:
-                return src[i:j + 1]
-    raise TranslateError('unbalanced braces after %s' % header_re)
+    j = match_brace(src, i)
+    if j < 0:
+        raise TranslateError('unbalanced braces after %s' % header_re)
+    return src[i:j]
 
 
 def field(body, name):
@@ -765,6 +778,28 @@ def anchored(repo, row):
     return out
 
 
+
+def letmut(var):
+    return r'let\s+mut\s+' + var + r'\s*=\s*(?P<e>[^;]*);'
+
+
+def incr(var):
+    return r'(?<![\w*])' + var + r'\s*\+=\s*(?P<e>[^;]*);'
+
+
+def nrow(name, file, fn, pat, params, **kw):
+    """a row of usize arithmetic, emitted in N"""
+    d = dict(name=name, file=file, fn=fn, pat=pat, params=params, ty='N', mach='usize')
+    d.update(kw)
+    return d
+
+
+_O = [('offset', 'offset')]
+_L = [('length', 'length')]
+_OL = [('offset', 'offset'), ('length', 'length')]
+_LR = [('left_length', 'left_length'), ('right_length', 'right_length')]
+_RL = [('root_offset', 'root_offset'), ('length', 'length')]
+
 FN = 'src/functions.rs'
 SEL = 'src/jsonpath/selector.rs'
 _IL = [('index', 'index'), ('len', 'len')]
@@ -822,6 +857,94 @@ ANCHORS = [
     dict(name='CS_LO', file=SEL, fn='convert_slice', pat=r'let\s+start\s*=\s*(?P<e>if\s+start\b[^;]*);', params=[('start', 'start')], mach='i64', safe=True, require=_RQ_SEL),
     dict(name='CS_HI', file=SEL, fn='convert_slice', pat=r'let\s+end\s*=\s*(?P<e>if\s+end\b[^;]*);',
          params=[('end', 'stop'), ('length', 'length')], mach='i64', safe=True, require=_RQ_SEL),
+    # ---- G2: offsets of the read-only byte walkers (C05 C04 C14 C03 C08), usize arithmetic, type N ----------------------------
+    # get_jentry_by_index
+    nrow('JBI_REJECT', FN, 'get_jentry_by_index', _IF_INDEX, [('index', 'index'), ('length', 'length')]),
+    nrow('JBI_JOFF', FN, 'get_jentry_by_index', letmut('jentry_offset'), _O),
+    nrow('JBI_VOFF', FN, 'get_jentry_by_index', letmut('val_offset'), _OL),
+    nrow('JBI_ADVANCE', FN, 'get_jentry_by_index', r'(?<!=\s)if\s+(?P<e>i\b[^{]*?)\s*\{', [('i', 'i'), ('index', 'index')]),
+    nrow('JBI_JSTEP', FN, 'get_jentry_by_index', incr('jentry_offset'), []),
+    # get_jentry_by_name
+    nrow('JBN_JOFF', FN, 'get_jentry_by_name', letmut('jentry_offset'), _O),
+    nrow('JBN_VOFF', FN, 'get_jentry_by_name', letmut('val_offset'), _OL),
+    nrow('JBN_KOFF', FN, 'get_jentry_by_name', letmut('key_offset'), _OL),
+    nrow('JBN_JSTEP1', FN, 'get_jentry_by_name', incr('jentry_offset'), [], count=2, occ=0),
+    nrow('JBN_JSTEP2', FN, 'get_jentry_by_name', incr('jentry_offset'), [], count=2, occ=1),
+    # object_keys
+    nrow('OKS_JOFF', FN, 'object_keys', letmut('jentry_offset'), []),
+    nrow('OKS_KOFF', FN, 'object_keys', letmut('key_offset'), _L),
+    nrow('OKS_PREV_KOFF', FN, 'object_keys', letmut('prev_key_offset'), _L),
+    nrow('OKS_JSTEP', FN, 'object_keys', incr('jentry_offset'), []),
+    # object_each
+    nrow('OEA_OFF0', FN, 'object_each', letmut('offset'), []),
+    nrow('OEA_WORDS', FN, 'object_each', r'for\s+_\s+in\s+0\.\.(?P<e>[^{]*?)\s*\{', _L, count=3, occ=0),
+    nrow('OEA_STEP', FN, 'object_each', r'\boffset\s*\+=\s*(?P<e>[0-9][^;]*);', []),
+    # array_values
+    nrow('AVS_JOFF', FN, 'array_values', letmut('jentry_offset'), []),
+    nrow('AVS_VOFF', FN, 'array_values', letmut('val_offset'), _L),
+    nrow('AVS_JSTEP', FN, 'array_values', incr('jentry_offset'), []),
+    # compare_container -> compare_array / compare_object: the slices passed on skip the header
+    nrow('CMP_ARR_LSKIP', FN, 'compare_container', r'compare_array\(\s*left_header\s*,\s*&left\[(?P<e>[^.\]]*)\.\.\]', []),
+    nrow('CMP_ARR_RSKIP', FN, 'compare_container', r'compare_array\([^;)]*right_header\s*,\s*&right\[(?P<e>[^.\]]*)\.\.\]', []),
+    nrow('CMP_OBJ_LSKIP', FN, 'compare_container', r'compare_object\(\s*left_header\s*,\s*&left\[(?P<e>[^.\]]*)\.\.\]', []),
+    nrow('CMP_OBJ_RSKIP', FN, 'compare_container', r'compare_object\([^;)]*right_header\s*,\s*&right\[(?P<e>[^.\]]*)\.\.\]', []),
+    # compare (top level): the same slices, and the entry word / payload of a scalar document
+    nrow('CPR_ARR_LSKIP', FN, 'compare', r'compare_array\(\s*left_header\s*,\s*&left\[(?P<e>[^.\]]*)\.\.\]', []),
+    nrow('CPR_ARR_RSKIP', FN, 'compare', r'compare_array\([^;)]*right_header\s*,\s*&right\[(?P<e>[^.\]]*)\.\.\]', []),
+    nrow('CPR_OBJ_LSKIP', FN, 'compare', r'compare_object\(\s*left_header\s*,\s*&left\[(?P<e>[^.\]]*)\.\.\]', []),
+    nrow('CPR_OBJ_RSKIP', FN, 'compare', r'compare_object\([^;)]*right_header\s*,\s*&right\[(?P<e>[^.\]]*)\.\.\]', []),
+    nrow('CPR_SC_LSKIP', FN, 'compare', r'compare_scalar\(\s*&left_jentry\s*,\s*&left\[(?P<e>[^.\]]*)\.\.\]', []),
+    nrow('CPR_SC_RSKIP', FN, 'compare', r'compare_scalar\([^;)]*&right_jentry\s*,\s*&right\[(?P<e>[^.\]]*)\.\.\]', []),
+    nrow('CPR_SC_LJOFF', FN, 'compare', r'let\s+left_encoded\s*=\s*read_u32\(\s*left\s*,\s*(?P<e>[^)]*)\)', [], count=2, occ=0),
+    nrow('CPR_SC_RJOFF', FN, 'compare', r'let\s+right_encoded\s*=\s*read_u32\(\s*right\s*,\s*(?P<e>[^)]*)\)', [], count=2, occ=0),
+    nrow('CPR_MIX_LJOFF', FN, 'compare', r'let\s+left_encoded\s*=\s*read_u32\(\s*left\s*,\s*(?P<e>[^)]*)\)', [], count=2, occ=1),
+    nrow('CPR_MIX_RJOFF', FN, 'compare', r'let\s+right_encoded\s*=\s*read_u32\(\s*right\s*,\s*(?P<e>[^)]*)\)', [], count=2, occ=1),
+    # compare_array
+    nrow('CMA_JOFF', FN, 'compare_array', letmut('jentry_offset'), []),
+    nrow('CMA_LVOFF', FN, 'compare_array', letmut('left_val_offset'), [('left_length', 'left_length')]),
+    nrow('CMA_RVOFF', FN, 'compare_array', letmut('right_val_offset'), [('right_length', 'right_length')]),
+    nrow('CMA_LEN', FN, 'compare_array', r'let\s+length\s*=\s*(?P<e>if\b[^;]*);', _LR),
+    nrow('CMA_JSTEP', FN, 'compare_array', incr('jentry_offset'), []),
+    # compare_object
+    nrow('CMO_LJOFF', FN, 'compare_object', letmut('left_jentry_offset'), []),
+    nrow('CMO_RJOFF', FN, 'compare_object', letmut('right_jentry_offset'), []),
+    nrow('CMO_LVOFF', FN, 'compare_object', letmut('left_val_offset'), [('left_length', 'left_length')]),
+    nrow('CMO_RVOFF', FN, 'compare_object', letmut('right_val_offset'), [('right_length', 'right_length')]),
+    nrow('CMO_LKOFF', FN, 'compare_object', letmut('left_key_offset'), [('left_length', 'left_length')]),
+    nrow('CMO_RKOFF', FN, 'compare_object', letmut('right_key_offset'), [('right_length', 'right_length')]),
+    nrow('CMO_LEN', FN, 'compare_object', r'let\s+length\s*=\s*(?P<e>if\b[^;]*);', _LR),
+    nrow('CMO_LJSTEP1', FN, 'compare_object', incr('left_jentry_offset'), [], count=2, occ=0),
+    nrow('CMO_LJSTEP2', FN, 'compare_object', incr('left_jentry_offset'), [], count=2, occ=1),
+    nrow('CMO_RJSTEP1', FN, 'compare_object', incr('right_jentry_offset'), [], count=2, occ=0),
+    nrow('CMO_RJSTEP2', FN, 'compare_object', incr('right_jentry_offset'), [], count=2, occ=1),
+    # convert_to_comparable
+    nrow('CVC_ARR_SKIP', FN, 'scalar_convert_to_comparable', r'array_convert_to_comparable\([^;]*&value\[(?P<e>[^.\]]*)\.\.\]', []),
+    nrow('CVC_OBJ_SKIP', FN, 'scalar_convert_to_comparable', r'object_convert_to_comparable\([^;]*&value\[(?P<e>[^.\]]*)\.\.\]', []),
+    nrow('CVA_JOFF', FN, 'array_convert_to_comparable', letmut('jentry_offset'), []),
+    nrow('CVA_VOFF', FN, 'array_convert_to_comparable', letmut('val_offset'), _L),
+    nrow('CVA_JSTEP', FN, 'array_convert_to_comparable', incr('jentry_offset'), []),
+    nrow('CVO_JOFF', FN, 'object_convert_to_comparable', letmut('jentry_offset'), []),
+    nrow('CVO_VOFF', FN, 'object_convert_to_comparable', letmut('val_offset'), _L),
+    nrow('CVO_KOFF', FN, 'object_convert_to_comparable', letmut('key_offset'), _L),
+    nrow('CVO_JSTEP1', FN, 'object_convert_to_comparable', incr('jentry_offset'), [], count=2, occ=0),
+    nrow('CVO_JSTEP2', FN, 'object_convert_to_comparable', incr('jentry_offset'), [], count=2, occ=1),
+    # container_to_string / scalar_to_string (occurrences: scalar, array, object arm)
+    nrow('CTS_SC_JOFF', FN, 'container_to_string', letmut('jentry_offset'), _O, count=3, occ=0),
+    nrow('CTS_SC_VOFF', FN, 'container_to_string', letmut('value_offset'), _O, count=3, occ=0),
+    nrow('CTS_ARR_JOFF', FN, 'container_to_string', letmut('jentry_offset'), _O, count=3, occ=1),
+    nrow('CTS_ARR_VOFF', FN, 'container_to_string', letmut('value_offset'), _OL, count=3, occ=1),
+    nrow('CTS_OBJ_JOFF', FN, 'container_to_string', letmut('jentry_offset'), _O, count=3, occ=2),
+    nrow('CTS_OBJ_KOFF', FN, 'container_to_string', letmut('key_offset'), _OL),
+    nrow('CTS_OBJ_VOFF', FN, 'container_to_string', letmut('value_offset'), [('key_offset', 'key_offset')], count=3, occ=2),
+    nrow('CTS_OBJ_JSTEP', FN, 'container_to_string', incr('jentry_offset'), []),
+    nrow('STS_JSTEP', FN, 'scalar_to_string', r'\*jentry_offset\s*\+=\s*(?P<e>[^;]*);', []),
+    # selector.rs
+    nrow('SOV_OFF', SEL, 'select_object_values', letmut('offset'), _RL),
+    nrow('SAV_OFF', SEL, 'select_array_values', letmut('offset'), _RL),
+    nrow('SBN_OFF', SEL, 'select_by_name', letmut('offset'), _RL),
+    nrow('SBI_OFF', SEL, 'select_by_indices', letmut('offset'), _RL),
+    nrow('BSA_RESERVE', SEL, 'build_scalar_array', r'data\.resize\(\s*(?P<e>[^,]*),\s*0\s*\)\s*;', [('jentry_offset', 'jentry_offset'), ('len', 'len')]),
+    nrow('BSA_JSTEP', SEL, 'build_scalar_array', incr('jentry_offset'), []),
 ]
 
 
@@ -920,6 +1043,38 @@ MUTATIONS = [
     (SEL, 'convert_slice', '(length - 1) as usize', 'length as usize', 0),
     (SEL, 'convert_slice', 'if start < 0 { 0 }', 'if start < 0 { 1 }', 0),
     (SEL, 'select_by_indices', '|| length == 0', '', 0),
+    # G2
+    (FN, 'get_jentry_by_index', 'offset + 4 * length + 4', 'offset + 4 * length + 8', 0),
+    (FN, 'get_jentry_by_index', 'let mut jentry_offset = offset + 4;', 'let mut jentry_offset = offset + 8;', 0),
+    (FN, 'get_jentry_by_index', 'index >= length', 'index > length', 0),
+    (FN, 'get_jentry_by_index', 'if i < index', 'if i <= index', 0),
+    (FN, 'get_jentry_by_index', 'jentry_offset += 4;', 'jentry_offset += 8;', 0),
+    (FN, 'get_jentry_by_name', 'offset + 8 * length + 4', 'offset + 4 * length + 4', 0),
+    (FN, 'get_jentry_by_name', 'offset + 8 * length + 4', 'offset + 8 * length', 1),
+    (FN, 'get_jentry_by_name', 'jentry_offset += 4;', 'jentry_offset += 2;', 1),
+    (FN, 'object_keys', 'let mut prev_key_offset = 8 * length + 4;', 'let mut prev_key_offset = 8 * length;', 0),
+    (FN, 'object_keys', 'let mut jentry_offset = 4;', 'let mut jentry_offset = 0;', 0),
+    (FN, 'object_each', '0..length * 2', '0..length', 0),
+    (FN, 'object_each', 'offset += 4;', 'offset += 8;', 0),
+    (FN, 'array_values', '4 * length + 4', '4 * length', 0),
+    (FN, 'compare_container', '&left[4..], right_header', '&left[8..], right_header', 0),
+    (FN, 'compare', '&right[8..]', '&right[4..]', 0),
+    (FN, 'compare_array', 'let mut right_val_offset = 4 * right_length;', 'let mut right_val_offset = 4 * left_length;', 0),
+    (FN, 'compare_array', 'left_length <= right_length', 'left_length >= right_length', 0),
+    (FN, 'compare_object', 'let mut left_key_offset = 8 * left_length;', 'let mut left_key_offset = 4 * left_length;', 0),
+    (FN, 'compare_object', 'right_jentry_offset += 4;', 'right_jentry_offset += 8;', 1),
+    (FN, 'scalar_convert_to_comparable', '&value[4..]', '&value[0..]', 1),
+    (FN, 'array_convert_to_comparable', '4 * length', '8 * length', 0),
+    (FN, 'object_convert_to_comparable', 'let mut key_offset = 8 * length;', 'let mut key_offset = 8 * length + 4;', 0),
+    (FN, 'container_to_string', '4 + *offset + 4 * length', '4 + *offset + 8 * length', 0),
+    (FN, 'container_to_string', 'let mut value_offset = 8 + *offset;', 'let mut value_offset = 4 + *offset;', 0),
+    (FN, 'container_to_string', 'let mut value_offset = key_offset;', 'let mut value_offset = key_offset + 4;', 0),
+    (FN, 'scalar_to_string', '*jentry_offset += 4;', '*jentry_offset += 8;', 0),
+    (SEL, 'select_object_values', 'root_offset + 4 + length * 8', 'root_offset + 4 + length * 4', 0),
+    (SEL, 'select_array_values', 'root_offset + 4 + length * 4', 'root_offset + length * 4', 0),
+    (SEL, 'select_by_name', 'root_offset + 4 + length * 8', 'root_offset + 8 + length * 8', 0),
+    (SEL, 'select_by_indices', 'root_offset + 4 + length * 4', 'root_offset + 4 + length * 8', 0),
+    (SEL, 'build_scalar_array', 'jentry_offset + 4 * len', 'jentry_offset + 8 * len', 0),
 ]
 
 
@@ -927,16 +1082,10 @@ def fn_span(src, name):
     m = re.search(r'fn\s+' + re.escape(name) + r'\b', src)
     if not m:
         raise TranslateError('selftest: function %s not found' % name)
-    i = src.index('{', m.end())
-    depth = 0
-    for j in range(i, len(src)):
-        if src[j] == '{':
-            depth += 1
-        elif src[j] == '}':
-            depth -= 1
-            if depth == 0:
-                return m.start(), j + 1
-    raise TranslateError('selftest: unbalanced braces in %s' % name)
+    j = match_brace(src, src.index('{', m.end()))
+    if j < 0:
+        raise TranslateError('selftest: unbalanced braces in %s' % name)
+    return m.start(), j
 
 
 def mutate(src, fn, old, new, occ):
@@ -959,7 +1108,7 @@ def selftest(repo, verbose=True):
         try:
             shutil.copytree(os.path.join(repo, 'src'), os.path.join(tmp, 'src'))
             path = os.path.join(tmp, rel)
-            src = open(path).read()
+            src = strip_comments_keep_strings(re.sub(r'/\*.*?\*/', '', open(path).read(), flags=re.S))   # as the translator reads it
             open(path, 'w').write(mutate(src, fn, old.replace('\\n', '\n'), new.replace('\\n', '\n'), occ))
             _SRC_CACHE.clear()
             try:
